@@ -30,6 +30,7 @@ EXPLANATION = (
     "PAIR-4: the median absolute deviation in reject_outliers is a median over every row (not over a "
     "selection of the deviations). The block sums of blocking_analysis are recognised in the per-block "
     "loop form and in the X[:nBlocks*i].reshape(nBlocks, i).sum(axis=1) form. "
+    ' PAIR-4: reshape(i, nBlocks).sum(axis=0) (blocks made of strided instead of consecutive samples) is a positive witness against the block geometry; the per-block accumulations may sit in one loop or in two loops over the same range (compared up to the loop counter). '
 )
 NOT_DECIDED = "statistical validity of the error bar, plateau detection, behaviour on autocorrelated series."
 TECHNIQUE = "static analysis: degree-of-homogeneity / shift typing over the AST, def-use pairing rules"
